@@ -564,12 +564,13 @@ func firstMatchRules(c *core.Ctx) {
 			if p.Exit == ir.ExitReturn && p.From != nil && len(p.Results) == 2 {
 				flag := p.Results[1]
 				want := "false"
-				if match > 0 {
+				if match > 0 || mentionsTerm(p.Results[0], fn.Params[0]) {
+					// (an entry of the listing is answered: found now, or remembered from an earlier pass)
 					want = "true"
 				}
 				if !(flag.IsConst() && flag.Aux == want) {
 					ok = false
-					c.Fail("first-match", cname, lastPos(p), "the lookup reports %s next to its answer, expected %s on this path (a match was%s found)", short(flag), want, map[bool]string{true: "", false: " not"}[match > 0])
+					c.Fail("first-match", cname, lastPos(p), "the lookup reports %s next to its answer, expected %s on this path (an entry of the listing is%s answered)", short(flag), want, map[bool]string{true: "", false: " not"}[want == "true"])
 				}
 			}
 			switch {
